@@ -2,7 +2,7 @@
 # Runs the repository's own test suite with the verification guard OFF and compares the set of
 # passing tests with /root/.vp/BASELINE.json (stable_pass).  Exit 0 iff every baseline test passes.
 set -u
-cd /repo || exit 3
+cd "${MCV_REPO:-/repo}" || exit 3
 export CARGO_NET_OFFLINE=true
 unset RUSTFLAGS
 LOG=$(mktemp /tmp/mcv-baseline.XXXXXX)
